@@ -468,6 +468,43 @@ def install_spec_prims(it):
         lb = lawbook(it2.ctx)
         return ops.mk("bool", z3.And(z3.Not(lb.contains(t, lift(";")[1])), lb.rstrip(t) == t))
 
+    def s_le16hex(it2, *words):
+        from .models import m_hexlify, m_struct_pack
+
+        packed = m_struct_pack(it2, [f"<{len(words)}H"] + list(words), {})
+        hb = m_hexlify(it2, [packed], {})
+        return ops.mk("str", hb.text) if hasattr(hb, "text") else hb.decode("utf-8")
+
+    def s_hex_of(it2, data):
+        from .models import m_hexlify
+
+        hb = m_hexlify(it2, [data], {})
+        return ops.mk("str", hb.text) if hasattr(hb, "text") else hb.decode("utf-8")
+
+    def s_hex_words_ok(it2, s, n):
+        kind, t = lift(s)
+        lb = lawbook(it2.ctx)
+        ok, _b = lb.unhexlify(t)
+        return ops.mk("bool", z3.And(ok, lb.length(t) == 4 * n))
+
+    def s_hex_word(it2, s, i):
+        from .models import hex_word_uf
+
+        kind, t = lift(s)
+        return ops.mk("int", hex_word_uf(t, lift(i)[1]))
+
+    def native_or(f_native, f_sym):
+        def fn(it2, a, k):
+            if ops.all_concrete(a):
+                return f_native(*a)
+            return f_sym(it2, *a)
+
+        return fn
+
+    it.models[id(prims.le16hex)] = ModelFn("le16hex", native_or(prims.le16hex, s_le16hex))
+    it.models[id(prims.hex_of)] = ModelFn("hex_of", native_or(prims.hex_of, s_hex_of))
+    it.models[id(prims.hex_words_ok)] = ModelFn("hex_words_ok", native_or(prims.hex_words_ok, s_hex_words_ok))
+    it.models[id(prims.hex_word)] = ModelFn("hex_word", native_or(prims.hex_word, s_hex_word))
     it.models[id(prims.line_fields)] = ModelFn("line_fields", sym1(prims.line_fields, s_line_fields))
     it.models[id(prims.no_semicolon_clean_end)] = ModelFn("carriable", sym1(prims.no_semicolon_clean_end, s_carriable))
 
